@@ -2761,19 +2761,18 @@ func (dsc *dataStoreCommand) setOperationCount(
 }
 
 func (dsc *dataStoreCommand) diffWorker(firstKey string, keyNames ...string) (d *redisDict, wrongType bool) {
+	// every operand is looked at before the answer: a wrong-typed key is an error also behind a missing one
+	d = newRedisDict()
 	sk, objExists := dsc.getKeyObjectUnlocked(firstKey)
-	if !objExists {
-		d = newRedisDict()
-		return
-	}
+	if objExists {
+		m := sk.getSet()
+		if m == nil {
+			wrongType = true
+			return
+		}
 
-	m := sk.getSet()
-	if m == nil {
-		wrongType = true
-		return
+		d = m.clone()
 	}
-
-	d = m.clone()
 
 	for _, keyName := range keyNames {
 		sk2, objExists := dsc.getKeyObjectUnlocked(keyName)
@@ -2803,30 +2802,28 @@ func (dsc *dataStoreCommand) diffSetStore(destination, keyName string, withKeyNa
 }
 
 func (dsc *dataStoreCommand) intersectWorker(firstKey string, keyNames ...string) (d *redisDict, wrongType bool) {
+	// every operand is looked at before the answer: a wrong-typed key is an error also behind a missing one
+	m := newRedisDict()
 	sk, objExists := dsc.getKeyObjectUnlocked(firstKey)
-	if !objExists {
-		d = newRedisDict()
-		return
-	}
-
-	m := sk.getSet()
-	if m == nil {
-		wrongType = true
-		return
+	if objExists {
+		m = sk.getSet()
+		if m == nil {
+			wrongType = true
+			return
+		}
 	}
 
 	d = m.clone()
 
 	for _, keyName := range keyNames {
+		m2 := newRedisDict()
 		sk2, objExists := dsc.getKeyObjectUnlocked(keyName)
-		if !objExists {
-			d = newRedisDict()
-			return
-		}
-		m2 := sk2.getSet()
-		if m2 == nil {
-			wrongType = true
-			return
+		if objExists {
+			m2 = sk2.getSet()
+			if m2 == nil {
+				wrongType = true
+				return
+			}
 		}
 
 		removalNames := []string{}
@@ -2847,12 +2844,14 @@ func (dsc *dataStoreCommand) intersectWorker(firstKey string, keyNames ...string
 }
 
 func (dsc *dataStoreCommand) intersectWithLimitWorker(limit int, keyNames ...string) (d *redisDict, wrongType bool) {
+	// every operand is looked at before the answer: a wrong-typed key is an error also behind a missing one
 	sets := make([]*redisDict, 0, len(keyNames))
+	missing := false
 	for _, keyName := range keyNames {
 		sk, objExists := dsc.getKeyObjectUnlocked(keyName)
 		if !objExists {
-			d = newRedisDict()
-			return
+			missing = true
+			continue
 		}
 
 		m := sk.getSet()
@@ -2865,7 +2864,7 @@ func (dsc *dataStoreCommand) intersectWithLimitWorker(limit int, keyNames ...str
 	}
 
 	d = newRedisDict()
-	if len(sets) < 2 {
+	if missing || len(sets) < 2 {
 		return
 	}
 
